@@ -50,6 +50,22 @@ func applyCfg(op *Op) func() {
 		saved := conf.IssueFormatter
 		conf.IssueFormatter = conf.DefaultIssueFormatter
 		return func() { conf.IssueFormatter = saved }
+	case "coerce":
+		// the documented global override (configuration.md): number coercers that also understand one more spelling
+		savedInt, savedFloat := conf.Coercers.Int, conf.Coercers.Float64
+		conf.Coercers.Int = func(data any) (any, error) {
+			if s, ok := data.(string); ok && s == "abc" {
+				return 7, nil
+			}
+			return savedInt(data)
+		}
+		conf.Coercers.Float64 = func(data any) (any, error) {
+			if s, ok := data.(string); ok && s == "abc" {
+				return 7.5, nil
+			}
+			return savedFloat(data)
+		}
+		return func() { conf.Coercers.Int, conf.Coercers.Float64 = savedInt, savedFloat }
 	case "msg":
 		var t, c, text string
 		for _, kv := range op.Input.M {
@@ -209,8 +225,30 @@ func genC07(r *Rng, tier string) *World {
 		w.Schemas = append(w.Schemas, GenNode(r, &c, 0, true))
 	}
 	nh := 1 + r.Intn(Pick(r, []int{3, 6, 12}))
+	coerceAt := -1
+	if r.P(0.08) {
+		// the global number coercers are replaced between two calls. Only the sized number schemas (Int64, Int32, Float32)
+		// consult the global coercer when they run; Int and Float64 capture it when they are built - so these worlds use the sized ones
+		for _, sn := range w.Schemas {
+			sn.Walk(func(n *Node) {
+				if n.Kind == "int" && n.W == "" {
+					n.W = Pick(r, []string{"64", "32"})
+				}
+				if n.Kind == "float" {
+					n.W = "32"
+					if n.Def != nil && float64(float32(n.Def.F)) != n.Def.F {
+						n.Def = nil
+					}
+				}
+			})
+		}
+		coerceAt = r.Intn(nh)
+	}
 	var ops []Op
 	for i := 0; i < nh; i++ {
+		if i == coerceAt {
+			ops = append(ops, Op{Kind: "cfg", Arg: "coerce"})
+		}
 		if r.P(0.06) {
 			ops = append(ops, Op{Kind: "clear"})
 			continue
